@@ -520,8 +520,8 @@ class regreg_base(ThumbInstruction):
         return tokens[0].encode()
 
 
-def make_regreg(mnemonic, opcode, read_rdn=True):
-    rdn = Operand("rdn", LowArmRegister, write=True, read=read_rdn)
+def make_regreg(mnemonic, opcode, read_rdn=True, write_rdn=True):
+    rdn = Operand("rdn", LowArmRegister, write=write_rdn, read=read_rdn)
     rm = Operand("rm", LowArmRegister, read=True)
     syntax = Syntax([mnemonic, " ", rdn, ",", rm])
     members = {"syntax": syntax, "rdn": rdn, "rm": rm, "opcode": opcode}
@@ -531,7 +531,7 @@ def make_regreg(mnemonic, opcode, read_rdn=True):
 And = make_regreg("and", 0b0100000000)
 Orr = make_regreg("orr", 0b0100001100)
 Eor = make_regreg("eor", 0b0100000001)
-Cmp = make_regreg("cmp", 0b0100001010)
+Cmp = make_regreg("cmp", 0b0100001010, write_rdn=False)
 Lsl = make_regreg("lsl", 0b0100000010)
 Lsr = make_regreg("lsr", 0b0100000011)
 Asr = make_regreg("asr", 0b0100000100)
